@@ -9,6 +9,7 @@ package main
 import (
 	"errors"
 	"fmt"
+	"math"
 	"math/big"
 	"strings"
 
@@ -35,7 +36,7 @@ func c11Outcome(f function.Function, args []cty.Value, okTag func(cty.Value) str
 
 func c11AllocCorrespondence(ctx *Ctx) {
 	// indent
-	nums := []string{"0", "1", "-1", "2", "300", "65536", "65537", "1000000", "-9223372036854775808", "0.5", "1e-30",
+	nums := []string{"0", "1", "-1", "2", "300", "65536", "65537", "1000000", "25000", "25001", "2147483647", "2147483644", "2147483645", "2147483646", "1073741822", "1073741823", "53687091", "53687090", "53687092", "-9223372036854775808", "0.5", "1e-30",
 		"562949953421312", "1125899906842624", "4611686018427387904", "9223372036854775807", "9223372036854775808", "18446744073709551616", "1e30"}
 	vals := []cty.Value{cty.PositiveInfinity, cty.NegativeInfinity}
 	for _, s := range nums {
@@ -43,19 +44,33 @@ func c11AllocCorrespondence(ctx *Ctx) {
 	}
 	vals = append(vals, cty.NumberIntVal(1<<62), cty.NumberIntVal(1<<49), cty.NumberUIntVal(1<<63), cty.NumberFloatVal(1<<50))
 	for _, n := range vals {
-		for _, str := range []string{"a", "a\nb"} {
-			got := c11Outcome(stdlib.IndentFunc, []cty.Value{n, cty.StringVal(str)}, func(cty.Value) string { return "" })
-			ctx.Add("c11.alloc", got, "indent", encVal(n))
+		for _, str := range []string{"a", "a\nb", "", "\n", "x\n\ny\nz", strings.Repeat("ab\n", 40)} {
+			if f := n.AsBigFloat(); !f.IsInf() && f.IsInt() && strings.Contains(str, "\n") {
+				// the padded result is really built: keep it small
+				if k, acc := f.Int64(); acc == big.Exact && k > 0 && k <= math.MaxInt32 && k*int64(strings.Count(str, "\n")) > c11AllocCap {
+					ctx.Tag("alloc-driver-not-run:indent")
+					continue
+				}
+			}
+			got := c11Outcome(stdlib.IndentFunc, []cty.Value{n, cty.StringVal(str)}, func(v cty.Value) string {
+				if len(v.AsString()) > len(str) {
+					return "pad"
+				}
+				return "nopad"
+			})
+			ctx.Add("c11.alloc", got, "indent", encVal(n), fmt.Sprint(len(str)), fmt.Sprint(strings.Count(str, "\n")))
 			ctx.Tag("c11.alloc:indent:" + got)
 		}
 	}
 	// format width padding
-	lits := []string{"0", "1", "2", "3", "4", "5", "10", "007", "00", "64", "999999", "1000000", "562949953421312", "1125899906842624",
+	lits := []string{"0", "1", "2", "3", "4", "5", "10", "007", "00", "64", "999999", "1000000", "1000001", "1000009", "1000010", "9999999", "10000000", "562949953421312", "1125899906842624",
 		"4611686018427387904", "9223372036854775807", "9223372036854775808", "9223372036854775809", "18446744073709551615", "18446744073709551616",
 		"18446744073709551617", "18446744073709551621", "27670116110564327424", "99999999999999999999999999999", "184467440737095516160000000000000000005"}
 	for _, w := range lits {
 		eff := c11GoWrap(w)
-		if eff > c11AllocCap && eff < 1<<49 {
+		// since /repo 84cbc5e a width beyond 10^6 is an ordinary error; widths that would be a real
+		// allocation of more than 50 MB if that guard were lost are still not run
+		if lv, ok := new(big.Int).SetString(w, 10); ok && lv.Cmp(big.NewInt(50000000)) > 0 && eff > c11AllocCap && eff < 1<<49 {
 			ctx.Tag("alloc-driver-not-run:pad:width=" + w)
 			continue
 		}
